@@ -221,6 +221,9 @@ impl AbstractTree for BlobTree {
         let super_version = self.index.get_version_for_snapshot(seqno);
         let tree = self.clone();
 
+        #[cfg(feature = "verif_hooks")]
+        crate::verif::yield_point("range:pinned");
+
         let range = prefix_to_range(prefix.as_ref());
 
         Box::new(
@@ -244,6 +247,9 @@ impl AbstractTree for BlobTree {
     ) -> Box<dyn DoubleEndedIterator<Item = IterGuardImpl> + Send + 'static> {
         let super_version = self.index.get_version_for_snapshot(seqno);
         let tree = self.clone();
+
+        #[cfg(feature = "verif_hooks")]
+        crate::verif::yield_point("range:pinned");
 
         Box::new(
             crate::Tree::create_internal_range(super_version.clone(), &range, seqno, index).map(
@@ -627,6 +633,9 @@ impl AbstractTree for BlobTree {
             .read()
             .expect("lock is poisoned")
             .get_version_for_snapshot(seqno);
+
+        #[cfg(feature = "verif_hooks")]
+        crate::verif::yield_point("get:pinned");
 
         let Some(item) = crate::Tree::get_internal_entry_from_version(&super_version, key, seqno)?
         else {
